@@ -13,12 +13,12 @@ REPO = os.environ.get("VERIF_REPO", "/repo")
 PY = "/venv/bin/python"
 
 
-def run_native(script: str, args=(), timeout=120):
+def run_native(script: str, args=(), timeout=120, full=False):
     env = dict(os.environ)
     env["PYTHONPATH"] = os.path.join(REPO, "src")
     try:
         p = subprocess.run([PY, os.path.join(ROOT, script), *args], capture_output=True, text=True, timeout=timeout, env=env, cwd=ROOT)
-        return p.returncode, (p.stdout + p.stderr)[-3000:]
+        return p.returncode, (p.stdout if full else (p.stdout + p.stderr)[-3000:])
     except subprocess.TimeoutExpired:
         return 124, "timeout"
 
